@@ -193,23 +193,32 @@ Proof.
       erewrite find_node_same_nodes; eauto. eapply add_edge_nodes; eauto.
 Qed.
 
-Lemma new_link_atomic fl name node_id ltype ifs pure :
-  atomic_if (fun s => forall l, ifs = Some l -> ifaces_exist (sg s) l) (new_link fl name node_id ltype ifs pure).
+Definition precheck (l : list iface_h) : M unit :=
+  for_each l (fun i => _ <- ask (fun g => find_node g (ih_id i)) ;; ret tt).
+
+Lemma no_mut_precheck l : no_mut (precheck l).
+Proof. unfold precheck. induction l; simpl; nm. apply IHl. Qed.
+
+Lemma precheck_ok l : forall s s1 u, precheck l s = (s1, Ok u) -> s1 = s /\ ifaces_exist (sg s) l.
 Proof.
-  unfold new_link.
+  unfold precheck. induction l as [|i l IH]; intros s s1 u H; simpl in H.
+  - unfold ret in H. inversion H; subst. split; auto. intros j [].
+  - unfold bind at 1 in H. unfold bind at 1 in H. unfold ask at 1 in H.
+    destruct (find_node (sg s) (ih_id i)) eqn:E; [|discriminate].
+    unfold ret at 1 in H. apply IH in H as [-> Hl]. split; auto.
+    intros j [<-|Hj]; [eexists; eauto|auto].
+Qed.
+
+Lemma new_link_atomic fl name node_id ltype ifs pure : atomic (new_link fl name node_id ltype ifs pure).
+Proof.
+  unfold atomic, new_link.
   apply atomic_bind_nm; [nm|intro]. apply atomic_bind_nm; [nm|intro id].
   destruct ltype as [ty|]; [|apply atomic_of_no_mut; nm].
   destruct ifs as [[|i l]|]; try solve [apply atomic_of_no_mut; nm].
   apply atomic_bind_nm; [nm|intro]. apply atomic_bind_nm; [nm|intro].
-  intros s s' e (s3 & (s2 & (s1 & (s0 & H0 & E0) & E1) & E2) & E3) H.
-  assert (Hex : ifaces_exist (sg s) (i :: l)).
-  { specialize (H0 _ eq_refl).
-    assert (X3 : sg s = sg s3) by (refine ((_ : no_mut _) _ _ _ E3); nm).
-    assert (X2 : sg s3 = sg s2) by (refine ((_ : no_mut _) _ _ _ E2); nm).
-    assert (X1 : sg s2 = sg s1) by (refine ((_ : no_mut _) _ _ _ E1); nm).
-    assert (X0 : sg s1 = sg s0) by (refine ((_ : no_mut _) _ _ _ E0); nm).
-    rewrite X3, X2, X1, X0. exact H0. }
-  clear H0 E0 E1 E2 E3.
+  apply atomic_bind_nm; [apply (no_mut_precheck (i :: l))|intro].
+  intros s s' e (s0 & _ & E0) H.
+  apply (precheck_ok (i :: l)) in E0 as [<- Hex].
   unfold bind at 1 in H. unfold m_add_node, mutate in H.
   unfold g_add_node in H. simpl nid in H.
   destruct (has_node (sg s) id) eqn:Hn; [inversion H; reflexivity|].
@@ -222,14 +231,9 @@ Proof.
   - unfold bind in H. rewrite H4 in H. discriminate.
 Qed.
 
-Lemma op_add_link_atomic_if_ifaces_exist fl name node_id ltype ifs pure :
-  atomic_if (fun s => forall l, ifs = Some l -> ifaces_exist (sg s) l) (op_add_link fl name node_id ltype ifs pure).
+Lemma op_add_link_atomic fl name node_id ltype ifs pure : atomic (op_add_link fl name node_id ltype ifs pure).
 Proof.
-  unfold op_add_link.
+  unfold atomic, op_add_link.
   apply atomic_bind_nm; [nm|intro names]. apply atomic_bind_nm; [nm|intro].
-  eapply atomic_if_weaken; [|apply new_link_atomic].
-  intros s (s1 & (s0 & H0 & E0) & E1) l Hl.
-  assert (X1 : sg s = sg s1) by (refine ((_ : no_mut _) _ _ _ E1); nm).
-  assert (X0 : sg s1 = sg s0) by (refine ((_ : no_mut _) _ _ _ E0); nm).
-  rewrite X1, X0. auto.
+  eapply atomic_if_weaken; [|apply new_link_atomic]. intros; exact I.
 Qed.
